@@ -83,8 +83,19 @@ def edit_cases(tier, seed):
         if i % 4 == 0:
             out.append({'kind': 'edit', 'eq': eq, 'ids': ids, 'edit': {'append': f'- k2*{ids[0]}'}, 'seed': seed})
             out.append({'kind': 'edit', 'eq': eq, 'ids': ids, 'edit': {'add': [f"d/dt * p = -p + {ids[-1]}"]}, 'seed': seed})
-            out.append({'kind': 'edit', 'eq': eq, 'ids': ids, 'edit': {'remove': [f' + {ids[1]}*{ids[2]}'] if '+' in eq else [f'- {ids[-1]}']},
-                        'seed': seed})
+            rem = f' + {ids[1]}*{ids[2]}' if '+' in eq else f'- {ids[-1]}'
+            out.append({'kind': 'edit', 'eq': eq, 'ids': ids, 'edit': {'remove': [rem]}, 'seed': seed})
+            # several edits in one dictionary; the added equations contain the replaced / removed terms themselves and
+            # are taken over literally
+            for tgt in ids:
+                out.append({'kind': 'edit', 'eq': eq, 'ids': ids, 'seed': seed,
+                            'edit': {'replace': {tgt: 'zz'}, 'add': [f"d/dt * p = -p + {tgt}*k2"]}})
+            out.append({'kind': 'edit', 'eq': eq, 'ids': ids, 'seed': seed,
+                        'edit': {'append': f'- k2*{ids[0]}', 'add': [f"d/dt * p = -p + {ids[-1]}"]}})
+            out.append({'kind': 'edit', 'eq': eq, 'ids': ids, 'seed': seed,
+                        'edit': {'remove': [rem], 'add': [f"d/dt * p = -p{rem}"]}})
+            out.append({'kind': 'edit', 'eq': eq, 'ids': ids, 'seed': seed,
+                        'edit': {'replace': {ids[0]: f'({ids[0]}*k2)'}, 'remove': [rem], 'append': f'- {ids[1]}'}})
     # terms that start with an operator/blank and end with an identifier that is a prefix of a longer identifier
     pairs = [(a, b) for a in IDENTS for b in IDENTS if a != b and b.startswith(a)]
     for short, long_ in pairs:
@@ -104,8 +115,137 @@ def edit_cases(tier, seed):
     return out
 
 
+LIB_YAML = """%YAML 1.2
+---
+
+op:
+  base: OperatorTemplate
+  equations:
+    - "d/dt * x = -k*x + u"
+  variables:
+    x: output(0.5)
+    k: 1.0
+    u: input(0.0)
+
+eop:
+  base: OperatorTemplate
+  equations:
+    - "m = g*s"
+  variables:
+    m: output
+    s: input
+    g: 2.0
+
+et:
+  base: EdgeTemplate
+  operators:
+    - eop
+
+drive:
+  base: NodeTemplate
+  operators:
+    - op
+
+pop:
+  base: NodeTemplate
+  operators:
+    - op
+
+Sub:
+  base: CircuitTemplate
+  nodes:
+    p: pop
+  edges: []
+"""
+
+MODEL_YAML_HEAD = """%YAML 1.2
+---
+
+pop:
+  base: NodeTemplate
+  operators:
+    pkg15.lib.op:
+      k: 3.0
+
+eop5:
+  base: pkg15.lib.eop
+  variables:
+    g: 5.0
+
+et:
+  base: EdgeTemplate
+  operators:
+    - eop5
+
+Sub:
+  base: CircuitTemplate
+  nodes:
+    p: pop
+  edges: []
+"""
+
+XREF_NODES = {'a': ('pkg15.lib.drive', 1.0), 'b': ('pop', 3.0), 'cc': ('pkg15.lib.pop', 1.0)}
+XREF_EDGES = {'b': ('pkg15.lib.et', 2.0), 'cc': ('et', 5.0)}
+XREF_CIRCS = {'c1': ('pkg15.lib.Sub', 1.0), 'c2': ('Sub', 3.0), 'c3': ('pkg15.lib.Sub', 1.0)}
+
+
+def xref_cases(tier, seed):
+    """references between YAML files: a bare name is resolved relative to the file that uses it, whatever was
+    referenced before it; all orders of the qualified / bare entries of nodes, edges and circuits"""
+    out = []
+    for order in itertools.permutations(XREF_NODES):
+        for eorder in itertools.permutations(XREF_EDGES):
+            out.append({'kind': 'xref', 'what': 'nodes', 'order': list(order), 'eorder': list(eorder), 'seed': seed})
+    for order in itertools.permutations(XREF_CIRCS):
+        out.append({'kind': 'xref', 'what': 'circuits', 'order': list(order), 'seed': seed})
+    return out
+
+
+def run_xref(case):
+    import os
+    import sys
+    from pyrates import CircuitTemplate
+    from .. import impl
+    res = {'evals': 1, 'nontrivial': True}
+    sig = {'features': ['cross_file_reference'], 'tag': 'xref_' + case['what']}
+    os.makedirs('pkg15', exist_ok=True)
+    open('pkg15/__init__.py', 'w').close()
+    with open('pkg15/lib.yaml', 'w') as f:
+        f.write(LIB_YAML)
+    lines = [MODEL_YAML_HEAD, 'Net:', '  base: CircuitTemplate']
+    x0 = 0.5
+    if case['what'] == 'nodes':
+        lines += ['  nodes:'] + [f'    {n}: {XREF_NODES[n][0]}' for n in case['order']] + ['  edges:']
+        lines += [f'    - [a/op/x, {t}/op/u, {XREF_EDGES[t][0]}, {{weight: 1.0}}]' for t in case['eorder']]
+        exp = {f'{n}/op/x': -XREF_NODES[n][1] * x0 + (XREF_EDGES[n][1] * x0 if n in XREF_EDGES else 0.0) for n in XREF_NODES}
+    else:
+        lines += ['  circuits:'] + [f'    {c}: {XREF_CIRCS[c][0]}' for c in case['order']] + ['  edges: []']
+        exp = {f'{c}/p/op/x': -XREF_CIRCS[c][1] * x0 for c in XREF_CIRCS}
+    with open('pkg15/model.yaml', 'w') as f:
+        f.write('\n'.join(lines) + '\n')
+    if os.getcwd() not in sys.path:
+        sys.path.insert(0, os.getcwd())
+    try:
+        circ = CircuitTemplate.from_yaml('pkg15.model.Net')
+        C = impl.compile_field(circ, {'vectorize': False})
+        got = C.call(C.y0(), t=0)
+        obs = {k: float(got[C.position(k)[0]]) for k in exp}
+    except Exception as e:
+        sig['exc'] = type(e).__name__
+        res['viol'] = dict(kind='raises', sig=dict(sig, kind='raises'), detail=f'{type(e).__name__}: {e}'[:200])
+        res['ok'] = False
+        return res
+    if any(abs(obs[k] - exp[k]) > 1e-12 for k in exp):
+        res['viol'] = dict(kind='wrong_template_resolved', sig=dict(sig, kind='wrong_template_resolved'), got=obs, expected=exp)
+        res['ok'] = False
+        return res
+    res['outcome'] = 'xref_' + case['what']
+    res['ok'] = True
+    return res
+
+
 def cases(tier, seed):
-    return model_cases(tier, seed) + edit_cases(tier, seed)
+    return model_cases(tier, seed) + edit_cases(tier, seed) + xref_cases(tier, seed)
 
 
 def describe(tier, seed):
@@ -113,7 +253,8 @@ def describe(tier, seed):
                     '(per-node overrides, shared operators, edge templates with attributes, hierarchy), both compared per '
                     'frontend variable with the reference semantics at base point + single deviations; (c) equation edits '
                     '(replace/remove/append/add) over identifier sets that contain one another with each identifier at every '
-                    'position, expected equations by token-level editing, and base: chains of length 1-3 with overrides; '
+                    'position, expected equations by token-level editing, and base: chains of length 1-3 with overrides; (d) references between two YAML files (qualified and bare '
+                    'names that exist in both files) in every order of the node / edge / circuit entries; '
                     'non-trivial = all', 'bounds': {'nodes': 2, 'chain': 3}}
 
 
@@ -130,6 +271,8 @@ def run_case(case):
         return r
     if case['kind'] == 'edit':
         return run_edit(case)
+    if case['kind'] == 'xref':
+        return run_xref(case)
     return run_chain(case)
 
 
@@ -139,8 +282,8 @@ def run_edit(case):
     import copy
     res = {'evals': 1, 'nontrivial': True}
     ed = copy.deepcopy(case['edit'])
-    kind = next(iter(ed))
-    sig = {'features': [f'edit_{kind}'], 'tag': 'edit'}
+    kind = '+'.join(ed)
+    sig = {'features': [f'edit_{k}' for k in ed], 'tag': 'edit'}
 
     def viol(k, **kw):
         res['viol'] = dict(kind=k, sig=dict(sig, kind=k), **kw)
@@ -155,15 +298,16 @@ def run_edit(case):
     base = OperatorTemplate('bo', equations=[case['eq']], variables=dict(variables))
     # expected equations: token-level edit
     exp = [case['eq']]
-    if kind == 'replace':
+    # the edits refer to the inherited equations (in the order replace, remove, append); added ones are new
+    if 'replace' in ed:
         for old, new in ed['replace'].items():
             exp = [term_replace(e, old, new) for e in exp]
-    elif kind == 'remove':
+    if 'remove' in ed:
         exp = [term_replace(e, ed['remove'][0], '') for e in exp]
-    elif kind == 'append':
+    if 'append' in ed:
         exp = [f"{e} {ed['append']}" for e in exp]
-    elif kind == 'add':
-        exp = exp + ed['add']
+    if 'add' in ed:
+        exp = exp + list(ed['add'])
     try:
         new = base.update_template(name='derived', equations=ed)
     except Exception as e:
@@ -182,10 +326,13 @@ def run_edit(case):
         circ = CircuitTemplate('c', nodes={'n': NodeTemplate('n', operators=[new])})
         C = impl.compile_field(circ, {'vectorize': False})
         got = C.call(C.y0(), t=0)
-        expd = evaluate(exp[0].split('=', 1)[1], env)
-        g = float(got[C.position('n/derived/q')[0]])
-        if abs(g - expd) > 1e-9 * max(1.0, abs(expd)):
-            return viol('derived_value', got=g, expected=float(expd), equations=list(new.equations))
+        for e in exp:
+            lhs, rhs = e.split('=', 1)
+            var = lhs.replace('d/dt', '').replace('*', '').strip()
+            expd = evaluate(rhs, env)
+            g = float(got[C.position(f'n/derived/{var}')[0]])
+            if abs(g - expd) > 1e-9 * max(1.0, abs(expd)):
+                return viol('derived_value', var=var, got=g, expected=float(expd), equations=list(new.equations))
     except Exception as e:
         sig['exc'] = type(e).__name__
         return viol('compile_raises', detail=f'{type(e).__name__}: {e}'[:200], equations=list(new.equations))
